@@ -41,7 +41,7 @@ def weighted(*pairs):
 
     return st.integers(0, total - 1).flatmap(sel)
 
-NAMES = st.sampled_from(["a", "foo", "My.Type", "x_1", "", "ü∀", "T", "q"])
+NAMES = st.sampled_from(["a", "foo", "My.Type", "x_1", "", "ü∀", "T", "q", " a", "b "])
 EXT_NAMES = st.sampled_from(["my.ext", "aaa", "zzz", "ext.b"])
 REQS = st.lists(EXT_NAMES, max_size=2, unique=True)
 
@@ -313,7 +313,7 @@ def depth_of(x) -> int:
 
 # ------------------------------------------------------------------ ops
 
-DESCS = st.sampled_from(["", "", "a description", "ünï <b> & 'q'"])
+DESCS = st.sampled_from(["", "", "a description", "ünï <b> & 'q'", " padded\n"])
 OP_KINDS = [
     "Module", "FuncDefn", "FuncDecl", "AliasDecl", "AliasDefn", "Const", "Input", "Output", "Call", "LoadFunc",
     "CallIndirect", "LoadConst", "DFG", "CFG", "Case", "Conditional", "TailLoop", "DataflowBlock", "ExitBlock",
